@@ -18,8 +18,12 @@ def _hook(event, args):
         path = args[0]
         if isinstance(path, bytes):
             path = os.fsdecode(path)
-        if isinstance(path, str) and path.startswith(_ROOT):
-            _LOG.append((path, str(args[1])))
+        if isinstance(path, str):
+            if not path.startswith(_ROOT):
+                # another spelling of a file below the root (relative, doubled separators, ..)
+                path = os.path.realpath(path)
+            if path.startswith(_ROOT):
+                _LOG.append((path, str(args[1])))
     except Exception:  # an audit hook must never raise into the program
         pass
 
